@@ -264,11 +264,39 @@ func CopyRepo(s *Scratch) (string, error) {
 func BuildMoq(s *Scratch, moqDir string) (string, error) {
 	bin := filepath.Join(s.Dir, "bin", "moq")
 	os.MkdirAll(filepath.Dir(bin), 0o755)
-	out, err := Run(moqDir, GoEnv(), "go", "build", "-o", bin, ".")
+	out, err := Run(moqDir, GoEnv(), "go", "build", "-o", bin, MainPackage(moqDir))
 	if err != nil {
 		return "", Fatal2("building moq from the working tree failed (not a verdict):\n%s", out)
 	}
 	return bin, nil
+}
+
+// MainPackage finds the moq command in a copy of the tree: the module root if
+// it holds package main, otherwise the main package that imports pkg/moq (so
+// that moving main.go to cmd/moq does not blind the checks).
+func MainPackage(moqDir string) string {
+	out, err := Run(moqDir, GoEnv(), "go", "list", "-f", "{{.Name}}|{{.Dir}}|{{join .Imports \",\"}}", "./...")
+	if err != nil {
+		return "."
+	}
+	best := "."
+	for _, line := range strings.Split(string(out), "\n") {
+		parts := strings.SplitN(strings.TrimSpace(line), "|", 3)
+		if len(parts) != 3 || parts[0] != "main" {
+			continue
+		}
+		rel, err := filepath.Rel(moqDir, parts[1])
+		if err != nil {
+			continue
+		}
+		if rel == "." {
+			return "."
+		}
+		if strings.Contains(parts[2], "/pkg/moq") {
+			best = "./" + rel
+		}
+	}
+	return best
 }
 
 // Seed returns VERIF_SEED or def.
